@@ -247,6 +247,36 @@ def rules(rep, m):
         good = True
         if not a[0].endswith("->ptr"):
             good = False
+        # the repositioning may only depend on 'this awaitable is a guard' and 'the process is still enqueued there'
+        def conjuncts(t):
+            if t.startswith("!") or not (t.startswith("(") and t.endswith(")")):
+                return [t]
+            inner, depth, parts, cur = t[1:-1], 0, [], ""
+            i_ = 0
+            while i_ < len(inner):
+                ch_ = inner[i_]
+                depth += ch_ == "("
+                depth -= ch_ == ")"
+                if depth == 0 and inner.startswith(" && ", i_):
+                    parts.append(cur)
+                    cur = ""
+                    i_ += 4
+                    continue
+                cur += ch_
+                i_ += 1
+            parts.append(cur)
+            if len(parts) == 1:
+                return [t]
+            return [x_ for p_ in parts for x_ in conjuncts(p_)]
+        for cd in [x_ for c_ in conds for x_ in conjuncts(c_)]:
+            c0 = cd[1:] if cd.startswith("!") else cd
+            allowed = re.fullmatch(r"\(.+->type == CMI_PROCESS_AWAITABLE_\w+\)", c0) or c0 == "cmi_hashheap_is_enqueued(%s, %s)" % (a[0], a[1]) \
+                or re.fullmatch(r"\(%s != NULL\)" % re.escape(a[0]), c0)
+            if not allowed:
+                rep.finding(r4, ps.name, "reposition:extra-condition", "the waiting-list entry is repositioned only under the extra "
+                            "condition '%s': when it does not hold the entry keeps its old priority as sort key although the "
+                            "process's priority has changed" % cd, where=m.rel(loc(c)))
+                good = False
         if a[1] != pp:
             rep.finding(r4, ps.name, "reposition:guard-key", "guard entry repositioned under key '%s', not the "
                         "process address" % a[1], where=m.rel(loc(c)))
@@ -341,7 +371,16 @@ def rules(rep, m):
                 neg = False
                 if cmpc["kind"] == "UnaryOperator" and cmpc.get("opcode") == "!":
                     neg, cmpc = True, strip(kids(cmpc)[0])
-                if cmpc["kind"] == "CallExpr" and re.sub(r"[\s()]", "", render(lo)) in ("%s>0" % jx, "%s>0u" % jx, "%s!=0" % jx):
+                lo_txt = re.sub(r"[\s()]", "", re.sub(r"(?<=\d)[uU]\b", "", render(lo)))
+                mlo = re.fullmatch(r"%s(>|>=|!=)(\d+)" % re.escape(jx), lo_txt)
+                lo_floor = None
+                if mlo:
+                    lo_floor = int(mlo.group(2)) + (0 if mlo.group(1) in (">", "!=") else -1)
+                if cmpc["kind"] == "CallExpr" and lo_floor is not None and lo_floor >= 1:
+                    why = ("the insertion stops at index %d: an entry recorded later can never be placed before the first %d "
+                           "recorded one(s), which are in heap-array order" % (lo_floor, lo_floor))
+                    good = False
+                elif cmpc["kind"] == "CallExpr" and lo_floor == 0:
                     fn = cx.canon(kids(cmpc)[0]).lstrip("*(").rstrip(")")
                     own = fn in (P + "heap_compare",) or fn == (cmpf.name if cmpf else None)
                     a = [cx.canon(z) for z in kids(cmpc)[1:]]
